@@ -221,6 +221,17 @@ def _work(i):
             pass
     except Exception as e:
         ctx.inconclusive("internal error: %s\n%s" % (e, traceback.format_exc()[-1500:]))
+        # same fallback: an obligation that breaks on this tree (e.g. a field changed its integer type) decides nothing;
+        # the battery may still show a native deviation
+        try:
+            mod = sys.modules.get("mirsym.props.%s" % prop)
+            R = mod.rep() if mod is not None and hasattr(mod, "rep") else None
+            if R is not None and R.battery:
+                ctx.violation("the obligation breaks on this tree (%s); battery run instead" % str(e)[:120], None,
+                              dict(R.facts, what="obligation not applicable to this code"), R.battery, R.judge, str(e)[:200])
+                ctx.rec["status"] = "inconclusive"
+        except Exception:
+            pass
     ctx.rec["wall_s"] = round(time.time() - t1, 3)
     sub.run_crosschecks(budget_s=60 if tier == "quick" else 600)
     cands = []
